@@ -25,8 +25,11 @@ pub fn fixed_graph() -> GraphStore {
     let mut st = GraphStore::new();
     let e = QueryEngine::new();
     for q in [
-        "CREATE (a:Person {name:'Al Ice', age:30})-[:KNOWS {w:1}]->(b:Person {name:'Bob', age:25})",
-        "CREATE (c:City {name:'a b'})",
+        // Persons carry no relationships, so that a plain `DELETE n` is a write the engine really performs
+        // (a connected node is refused without DETACH); KNOWS lives between the two cities.
+        "CREATE (a:Person {name:'Al Ice', age:30})",
+        "CREATE (b:Person {name:'Bob', age:25})",
+        "CREATE (c:City {name:'a b'})-[:KNOWS {w:1}]->(e:City {name:'c d'})",
         "CREATE INDEX ON :Person(name)",
         "CREATE CONSTRAINT ON (c:City) ASSERT c.name IS UNIQUE",
         "CREATE HIERARCHY INDEX hx ON ()-[:KNOWS]->()",
